@@ -72,6 +72,7 @@ type bundleOpts struct {
 	allParams       bool                                                    // dataFor supplies optional params too
 	ij         bool // expressions may read $ij.n / $ij.s (interpreter checks)
 	defaultAnywhere bool // a {switch}'s {default} may stand before (between) its {case}s
+	sharedNs        bool // a file may declare the namespace of the file before it (with an autoescape attribute of its own)
 }
 
 func typeOfName(n string) ty {
@@ -655,9 +656,21 @@ func (g *bundleGen) bundle() *gBundle {
 		case 1:
 			f.autoesc = "contextual"
 		}
+		tsuffix := ""
+		if g.opts.sharedNs && i > 0 && g.r.Intn(2) == 0 {
+			// one namespace spread over two files, each {namespace} tag with its own attribute
+			prev := b.files[i-1]
+			f.ns = prev.ns
+			tsuffix = fmt.Sprintf("f%d", i)
+			if prev.autoesc == "false" {
+				f.autoesc = ""
+			} else {
+				f.autoesc = "false"
+			}
+		}
 		nt := 1 + g.r.Intn(3)
 		for j := 0; j < nt; j++ {
-			f.tmpls = append(f.tmpls, g.template(f, fmt.Sprintf("t%d", j)))
+			f.tmpls = append(f.tmpls, g.template(f, fmt.Sprintf("t%d%s", j, tsuffix)))
 		}
 		if g.opts.calls && g.r.Intn(3) == 0 {
 			f.tmpls = append(f.tmpls, g.recursiveTemplate(f))
